@@ -42,6 +42,7 @@ type monitors struct {
 	leadersSeen  map[int64]map[int64]string   // shard -> term -> node observed LEADER
 	nodeTerm     map[string]map[int64]int64   // node -> shard -> last observed term
 	deleted      map[string]map[int64]bool    // node -> shard -> DeleteShard seen since the last observation
+	delCall      map[string]int64             // DeleteShard call id -> shard
 	snapPending  map[string]map[int64]string  // node -> shard -> SendSnapshot stream delivered and not (yet) answered with a SnapshotResponse
 	blReq        map[string]*proto.BecomeLeaderRequest
 	blResp       map[string]map[string]*proto.EntryId // BecomeLeader call id -> NewTerm responders known at send time
@@ -79,7 +80,7 @@ type leadEv struct {
 func newMonitors(c *chaos) *monitors {
 	return &monitors{c: c, storedTerm: map[int64]int64{}, storedMeta: map[int64]model.ShardMetadata{}, sentTermMax: map[int64]int64{},
 		ntReq: map[string]*proto.NewTermRequest{}, ntPreTerm: map[string]int64{}, ntResp: map[int64]map[int64]map[string]*proto.EntryId{},
-		leadersSeen: map[int64]map[int64]string{}, nodeTerm: map[string]map[int64]int64{}, deleted: map[string]map[int64]bool{}, snapPending: map[string]map[int64]string{}, blReq: map[string]*proto.BecomeLeaderRequest{}, blResp: map[string]map[string]*proto.EntryId{},
+		leadersSeen: map[int64]map[int64]string{}, nodeTerm: map[string]map[int64]int64{}, deleted: map[string]map[int64]bool{}, snapPending: map[string]map[int64]string{}, delCall: map[string]int64{}, blReq: map[string]*proto.BecomeLeaderRequest{}, blResp: map[string]map[string]*proto.EntryId{},
 		fences: map[string]map[int64]*fenceInfo{}, streamTerm: map[string]int64{}, streamShard: map[string]int64{},
 		tagTerm: map[string]int64{}, checkedLeaders: map[string]bool{},
 		appliedSeen: map[string]appliedMark{}, ackedOK: map[string]bool{}, electionNote: map[int64]map[int64]string{}, headBelow: map[int64]map[int64][]string{}, fenceStamp: map[int64]map[int64]int64{}, leadAt: map[string]map[int64][]leadEv{}}
@@ -219,6 +220,7 @@ func (m *monitors) tap(t *TapMsg) {
 				m.deleted[t.Dst] = map[int64]bool{}
 			}
 			m.deleted[t.Dst][req.Shard] = true
+			m.delCall[t.CallID] = req.Shard
 		}
 	case t.Kind == "req" && strings.HasSuffix(meth, "/Truncate"):
 		req := &proto.TruncateRequest{}
@@ -388,6 +390,11 @@ func (m *monitors) tapSent(t *TapMsg) {
 	switch {
 	case strings.HasSuffix(t.Method, "/SendSnapshot") && !t.ToServer && (t.Kind == "data" || t.Kind == "status"):
 		m.snapAnswered(t)
+	case t.Kind == "resp" && strings.HasSuffix(t.Method, "/DeleteShard"):
+		if shard, ok := m.delCall[t.CallID]; ok && t.Status != nil && t.Status.Code() != codes.OK {
+			// the node refused to delete the replica: it keeps its term
+			delete(m.deleted[t.Src], shard)
+		}
 	case t.Kind == "req" && strings.HasSuffix(t.Method, "/BecomeLeader") && t.Src == "coord":
 		// what the coordinator had received when it decided (send time, not delivery time)
 		req := &proto.BecomeLeaderRequest{}
@@ -611,6 +618,14 @@ func (m *monitors) checkBecomeLeader(dst string, req *proto.BecomeLeaderRequest,
 		for _, x := range m.headBelow[req.Shard][req.Term] {
 			below += "; " + x
 		}
+		if lh := resp[dst]; lh != nil {
+			for _, x := range sm.RemovedNodes {
+				n := nodeOfAddr(x.GetIdentifier())
+				if h := resp[n]; h != nil && !ens[n] && (h.Term > lh.Term || (h.Term == lh.Term && h.Offset > lh.Offset)) {
+					below += fmt.Sprintf("; removed node %s had answered with head %d/%d, above the head %d/%d of the chosen leader %s, and was ignored", n, h.Term, h.Offset, lh.Term, lh.Offset, dst)
+				}
+			}
+		}
 		m.electionNote[req.Shard][req.Term] = fmt.Sprintf("when BecomeLeader(term %d) was sent, %d of the %d ensemble+removed nodes had answered NewTerm: %s%s%s", req.Term, answered, len(all), verdict, twice, below)
 	}
 	raw := func(l []model.Server) string {
@@ -787,8 +802,9 @@ func (m *monitors) afterEvent() {
 				m.nodeTerm[name] = map[int64]int64{}
 			}
 			if prev, ok := m.nodeTerm[name][s]; ok && v.Term < prev {
-				if m.deleted[name][s] && v.Term == -1 {
-					// the replica was deleted on the coordinator's request and re-created empty
+				if m.deleted[name][s] {
+					// the replica was deleted on the coordinator's request and re-created from scratch
+					// (empty, or straight into the term of a late NewTerm request)
 					delete(m.deleted[name], s)
 				} else if sid, pend := m.snapPending[name][s]; pend && v.Term == -1 {
 					m.fail("C05", "node-term-decreased", "node %s shard %d: term went from %d to %d after a snapshot install that never completed (stream %s: the follower wipes its DB, and the term with it, before the new DB is in place)", name, s, prev, v.Term, sid)
